@@ -25,6 +25,15 @@ Reporting part (kind ``reporting``): TuningStatus objects are filled by ``update
 ``ExperimentResult.best_config`` (on a generated results frame) with mode min on f versus mode max on
 -f must name the same trial / row, with exactly negated metric values; with several metrics the second
 run also flips one metric alone (its mode exchanged, its column negated, the rest untouched).
+
+Serialisation round trips: in most pairs BOTH twins go through the same round trip
+(``dill.loads(dill.dumps(scheduler))`` as Tuner.save / load does, or ``copy.deepcopy``) at random points of
+the history, several per history; the mirrored suggestions / decisions / rankings must still agree.
+
+Transfer learning (kinds ``rush_scheduler_*``, ``bounding_box``): offline tables E (several tasks, seeds,
+fidelities, crossing learning curves) for run A and -E for run B; ``top_k_hyperparameter_configurations``
+must return the same configurations in the same order (min on E / max on -E) for every k, and RUSHScheduler
+(types stopping / promotion) resp. BoundingBox(random search) built from them are paired like the others.
 """
 import contextlib
 import copy
@@ -80,17 +89,20 @@ KINDS = [
     "hyperband_rush_stopping", "hyperband_rush_promotion",
     "sync_hyperband", "sync_geometric_hyperband", "dehb",
     "pbt", "rea", "median_rule", "moasha", "reporting",
+    "rush_scheduler_stopping", "rush_scheduler_promotion", "bounding_box",
 ]
 HB_TYPES = {
     "hyperband_stopping": "stopping", "hyperband_promotion": "promotion", "hyperband_pasha": "pasha",
     "hyperband_cost_promotion": "cost_promotion", "hyperband_rush_stopping": "rush_stopping",
     "hyperband_rush_promotion": "rush_promotion",
+    "rush_scheduler_stopping": "rush_stopping", "rush_scheduler_promotion": "rush_promotion",
 }
+TRANSFER_KINDS = ("rush_scheduler_stopping", "rush_scheduler_promotion", "bounding_box")
 PROMO_TYPES = ("promotion", "pasha", "cost_promotion", "rush_promotion")
 # kinds whose pairs must contain a resume (or warm start) to count as non-trivial
 NEEDS_RESUME = {"hyperband_promotion", "hyperband_pasha", "hyperband_cost_promotion", "hyperband_rush_promotion",
-                "sync_hyperband", "sync_geometric_hyperband", "pbt"}
-NEEDS_DECISION = set(KINDS) - {"fifo_random", "fifo_grid", "rea", "reporting"}
+                "sync_hyperband", "sync_geometric_hyperband", "pbt", "rush_scheduler_promotion"}
+NEEDS_DECISION = set(KINDS) - {"fifo_random", "fifo_grid", "rea", "reporting", "bounding_box"}
 
 _DEVNULL = open(os.devnull, "w")
 
@@ -103,6 +115,8 @@ def preload():
         import syne_tune.optimizer.schedulers.synchronous  # noqa: F401
         import syne_tune.optimizer.schedulers.multiobjective  # noqa: F401
         import syne_tune.optimizer.baselines  # noqa: F401
+        import syne_tune.optimizer.schedulers.transfer_learning  # noqa: F401
+        import dill  # noqa: F401
         import syne_tune.experiments.experiment_result  # noqa: F401
         import syne_tune.tuner  # noqa: F401
 
@@ -113,7 +127,7 @@ CYCLE = KINDS + ["hyperband_stopping", "hyperband_promotion", "hyperband_pasha",
 
 
 def n_cases(tier):
-    return len(CYCLE) * (34 if tier == "quick" else 690)  # 748 / 15180
+    return len(CYCLE) * (34 if tier == "quick" else 608)  # 850 / 15200
 
 
 def cases(tier, seed):
@@ -133,6 +147,13 @@ def floors(tier):
     out["decided:best_configuration"] = 200 if tier == "quick" else 5000
     out["sync_burst:fewer_valid_than_slots_reached_with_>=2_valid"] = 5 if tier == "quick" else 100
     out["moasha:completions_of_sparse_reporters_before_max_t"] = 50 if tier == "quick" else 1000
+    for k in KINDS:
+        if k != "reporting":
+            out["pairs_with_roundtrip:" + k] = 10 if tier == "quick" else 180
+    out["roundtrips"] = 1000 if tier == "quick" else 18000
+    out["roundtrips_with_nonempty_rungs"] = 100 if tier == "quick" else 1800
+    out["decided:top_k"] = 300 if tier == "quick" else 5000
+    out["transfer:top_k_best_and_worst_fidelity_rankings_differ"] = 30 if tier == "quick" else 500
     return out
 
 
@@ -162,6 +183,32 @@ def expand(spec):
         p["max_t"] = rng.randint(1, 4)
         _common(rng, p, workers=(1, 4), trials=(5, 25), events=(40, 160))
         p["pte"] = rng.choice(["default", "empty"])
+    elif kind in TRANSFER_KINDS:
+        p["space"] = _transfer_space(rng)
+        if kind == "bounding_box":
+            p["max_t"] = rng.randint(1, 3)
+            _common(rng, p, workers=(1, 4), trials=(5, 25), events=(40, 160))
+        else:
+            typ = HB_TYPES[kind]
+            for _ in range(50):
+                hp = gen.hyperband_params(rng, [typ])
+                if len(gen.ref_rung_levels(hp)) >= 1:
+                    break
+            hp.pop("mode")
+            p.update(hp)
+            _common(rng, p)
+            p["use_mra"] = rng.random() < 0.5
+            p["rush_candidates"] = 1  # > 0: the referee uses its loose rule (threshold candidates exist)
+            p["extra_points"] = rng.choice(["none", "none", "empty", "one"])
+        n_tasks = rng.randint(1, 3)
+        p["offline"] = {
+            "n_tasks": n_tasks, "n_evals": rng.randint(4, 10), "n_seeds": rng.randint(1, 3),
+            "n_fidelities": rng.choice([1, 2, 3, 4, 6]), "k": rng.randint(2 if n_tasks == 1 else 1, 3),
+            "objectives": rng.choice([["loss"], ["other", "loss"], ["loss", "other"]]),
+            "seed": rng.randint(0, 10**6),
+        }
+        if kind == "bounding_box" and n_tasks * p["offline"]["k"] < 3:
+            p["offline"]["k"] = 3
     elif kind in HB_TYPES:
         typ = HB_TYPES[kind]
         for _ in range(50):
@@ -284,8 +331,92 @@ def expand(spec):
         p["curves"] = rng.choice(["continuous", "crossing"])
     else:
         raise ValueError(kind)
+    if kind != "reporting":
+        # serialisation round trips of both twins at random points of the history
+        rrng = random.Random(spec["seed"] + 17)
+        p["rt_prob"] = rrng.choice([0.0, 0.01, 0.02, 0.02, 0.05])
+        p["rt_max"] = rrng.randint(1, 6)
     p.update({k: v for k, v in spec.items() if k not in ("seed", "kind") and not k.startswith("_")})
     return p
+
+
+def _transfer_space(rng):
+    """Numerical and categorical domains only (BoundingBox restricts exactly those), at least one continuous."""
+    desc = {"h0": ["uniform", 0.0, rng.choice([1.0, 2.5])]}
+    for i in range(1, rng.randint(2, 4)):
+        k = rng.choice(["uniform", "loguniform", "randint", "choice"])
+        if k == "uniform":
+            lo = rng.choice([0.0, -1.0, 0.5])
+            desc[f"h{i}"] = ["uniform", lo, lo + rng.choice([1.0, 10.0])]
+        elif k == "loguniform":
+            desc[f"h{i}"] = ["loguniform", rng.choice([1e-5, 1e-3, 0.1]), rng.choice([1.0, 10.0])]
+        elif k == "randint":
+            lo = rng.randint(0, 5)
+            desc[f"h{i}"] = ["randint", lo, lo + rng.randint(3, 50)]
+        else:
+            desc[f"h{i}"] = ["choice", [f"c{j}" for j in range(rng.randint(2, 4))]]
+    if rng.random() < 0.4:
+        desc["const_i"] = ["const", 7]
+    return desc
+
+
+def build_offline(p, space, sign):
+    """Offline evaluations of related tasks: E for run A (sign=+1), -E (metric column only) for run B.
+    Learning curves over the fidelities cross (so ranking by best fidelity differs from ranking by the
+    worst one), values in general position; averages over seeds are exact mirror images."""
+    import numpy as np
+    import pandas as pd
+    from syne_tune.optimizer.schedulers.transfer_learning import TransferLearningTaskEvaluations
+
+    off = p["offline"]
+    out = {}
+    names = list(off["objectives"])
+    for t in range(off["n_tasks"]):
+        rs = np.random.RandomState(off["seed"] * 7 + t)
+        rows = []
+        for _ in range(off["n_evals"]):
+            rows.append({k: (v.sample(random_state=rs) if hasattr(v, "sample") else v) for k, v in space.items()})
+        n, ns, nf = off["n_evals"], off["n_seeds"], off["n_fidelities"]
+        a = rs.uniform(0.0, 1.0, size=(n, 1, 1))
+        b = rs.uniform(-0.4, 0.4, size=(n, 1, 1))
+        fid = np.arange(nf, dtype=float).reshape(1, 1, nf) / max(nf - 1, 1)
+        ev = a + b * fid + rs.uniform(-0.05, 0.05, size=(n, ns, nf)) - 0.3
+        full = np.zeros((n, ns, nf, len(names)))
+        for j, name in enumerate(names):
+            full[..., j] = sign * ev if name == "loss" else rs.uniform(size=(n, ns, nf))
+        out[f"task{t}"] = TransferLearningTaskEvaluations(
+            configuration_space=space, hyperparameters=pd.DataFrame(rows), objectives_names=names,
+            objectives_evaluations=full)
+    return out
+
+
+def check_top_k(o, kind, p, off_a, off_b):
+    """top_k_hyperparameter_configurations itself: same configurations in the same order for mirrored tables."""
+    import numpy as np
+
+    for task in off_a:
+        ea, eb = off_a[task], off_b[task]
+        n = p["offline"]["n_evals"]
+        avg = ea.objective_values("loss").mean(axis=1)
+        best_order, worst_order = list(np.argsort(avg.min(axis=1))), list(np.argsort(avg.max(axis=1)))
+        if best_order[: p["offline"]["k"]] != worst_order[: p["offline"]["k"]]:
+            o.count("transfer:top_k_best_and_worst_fidelity_rankings_differ")
+        for k in range(1, n + 1):
+            try:
+                ra = ea.top_k_hyperparameter_configurations(k, "min", "loss")
+                rb = eb.top_k_hyperparameter_configurations(k, "max", "loss")
+            except Exception as e:  # noqa: BLE001
+                o.violate("no_raise", f"transfer:raised:top_k_hyperparameter_configurations:{type(e).__name__}",
+                          {"error": repr(e)[:300], "k": k})
+                return False
+            o.count("decided:top_k")
+            if ra != rb:
+                o.violate("rankings", "transfer:top_k_hyperparameter_configurations:configurations_or_order_differ",
+                          {"kind": kind, "task": task, "k": k, "n_fidelities": p["offline"]["n_fidelities"],
+                           "min_on_E": ra[:4], "max_on_minus_E": rb[:4],
+                           "avg_over_seeds_E": avg.tolist()[:10]})
+                return False
+    return True
 
 
 # =============================================================================================
@@ -336,6 +467,42 @@ def build(p, mode, seed, shared):
 
     kind = p["kind"]
     space = gen.build_space(p["space"])
+    if kind in TRANSFER_KINDS:
+        from syne_tune.optimizer.schedulers.transfer_learning import BoundingBox, RUSHScheduler
+
+        if p.get("use_mra"):
+            space["epochs"] = p["max_t"]
+        off = build_offline(p, space, 1.0 if mode == "min" else -1.0)
+        shared.setdefault("offline", {})[mode] = off
+        if kind == "bounding_box":
+            max_t = p["max_t"]
+
+            def scheduler_fun(new_space, mode_, metric_):
+                return S.FIFOScheduler(new_space, searcher="random", metric=metric_, mode=mode_, max_t=max_t,
+                                       random_seed=seed)
+
+            return BoundingBox(scheduler_fun, space, "loss", off, mode=mode,
+                               num_hyperparameters_per_task=p["offline"]["k"])
+        kw = dict(
+            searcher="random", mode=mode, resource_attr="epoch", brackets=p.get("brackets", 1),
+            rung_system_per_bracket=p.get("rung_system_per_bracket", False), random_seed=seed,
+            num_hyperparameters_per_task=p["offline"]["k"],
+        )
+        if p.get("use_mra"):
+            kw["max_resource_attr"] = "epochs"
+        else:
+            kw["max_t"] = p["max_t"]
+        for k in ("grace_period", "reduction_factor", "rung_increment", "rung_levels"):
+            if p.get(k) is not None:
+                kw[k] = p[k]
+        if p["extra_points"] == "empty":
+            kw["points_to_evaluate"] = []
+        elif p["extra_points"] == "one":
+            import numpy as np
+
+            rs = np.random.RandomState(seed % 1000)
+            kw["points_to_evaluate"] = [{k: v.sample(random_state=rs) for k, v in space.items() if hasattr(v, "sample")}]
+        return RUSHScheduler(space, off, metric="loss", type=HB_TYPES[kind].replace("rush_", ""), **kw)
     if kind in ("fifo_random", "fifo_grid"):
         kw = dict(searcher="random" if kind == "fifo_random" else "grid", metric="loss", mode=mode,
                   max_t=p["max_t"], random_seed=seed)
@@ -439,10 +606,20 @@ class HBReferee:
         self.typ = HB_TYPES[p["kind"]]
         self.promo = self.typ in PROMO_TYPES
         self.ref = RefRungs(levels, p["max_t"], "min", p["brackets"], p["rung_system_per_bracket"])
-        self.sched_a = sched_a
         self.brackets = {}
         self.sched_log = []
         self.observable = True
+        self.cap_before = p["max_t"]
+        self.attach(sched_a)
+
+    def detach(self):
+        """Remove the instance-level wraps (before run A is serialised)."""
+        term = self.sched_a.terminator
+        for name in ("on_task_add", "on_task_schedule"):
+            term.__dict__.pop(name, None)
+
+    def attach(self, sched_a):
+        self.sched_a = sched_a
         term = sched_a.terminator
         orig_add, orig_sched = term.on_task_add, term.on_task_schedule
 
@@ -460,7 +637,6 @@ class HBReferee:
 
         term.on_task_add = on_task_add
         term.on_task_schedule = on_task_schedule
-        self.cap_before = p["max_t"]
 
     # -- bookkeeping (run A only)
     def pre_suggest(self):
@@ -571,6 +747,9 @@ class TwinPort:
         self.ncalls = 0
         self._btrials = {}
         self.rank_hook = None
+        self.rt_prob, self.rt_left, self.n_roundtrips = 0.0, 0, 0
+        self.rt_rng = random.Random(seed + 23)
+        self.rt_nonempty = None  # callable(run A) -> bool: some rung holds >= 2 entries
 
     # ------------------------------------------------------------------ plumbing
     def _btrial(self, trial):
@@ -621,6 +800,51 @@ class TwinPort:
         self._end("violation")
         return None, None
 
+    def _maybe_roundtrip(self):
+        """Both twins go through the same serialisation round trip (dill as Tuner.save / load, or deepcopy)."""
+        if self.rt_left <= 0 or self.rt_rng.random() >= self.rt_prob:
+            return
+        import dill
+
+        how = self.rt_rng.choice(["dill", "dill", "deepcopy"])
+        nonempty = False
+        if self.rt_nonempty is not None:
+            try:
+                nonempty = bool(self.rt_nonempty(self.a))
+            except Exception:  # noqa: BLE001
+                nonempty = False
+        if self.referee is not None:
+            self.referee.detach()
+        new, errs = [], []
+        for s in (self.a, self.b):
+            try:
+                new.append(dill.loads(dill.dumps(s)) if how == "dill" else copy.deepcopy(s))
+                errs.append(None)
+            except Exception as e:  # noqa: BLE001
+                new.append(None)
+                errs.append(e)
+        if errs[0] is None and errs[1] is None:
+            self.a, self.b = new
+            self.rt_left -= 1
+            self.n_roundtrips += 1
+            self.o.count("roundtrips")
+            self.o.count("roundtrips:" + how)
+            if nonempty:
+                self.o.count("roundtrips_with_nonempty_rungs")
+        elif errs[0] is not None and errs[1] is not None and type(errs[0]) is type(errs[1]):
+            self.o.count(f"roundtrip_failed_in_both:{self.kind}:{how}:{type(errs[0]).__name__}")
+            self.rt_left = 0
+        else:
+            which = "min" if errs[0] is not None else "max"
+            e = errs[0] if errs[0] is not None else errs[1]
+            self.o.violate("no_raise", f"{self.kind}:raised_only_with_mode_{which}:{how}_round_trip:{type(e).__name__}",
+                           {"min_run": repr(errs[0])[:300], "max_run": repr(errs[1])[:300], "call": self.ncalls})
+            self._end("violation")
+        if self.referee is not None:
+            self.referee.attach(self.a)
+        if self.ended is None and errs[0] is None and errs[1] is None:
+            self._rankings(f"{how}_round_trip")
+
     def _end(self, how):
         if self.ended is None:
             self.ended = how
@@ -654,6 +878,9 @@ class TwinPort:
 
     # ------------------------------------------------------------------ scheduler API
     def suggest(self, trial_id):
+        if self.ended is not None:
+            return None
+        self._maybe_roundtrip()
         if self.ended is not None:
             return None
         if self.referee is not None:
@@ -692,6 +919,9 @@ class TwinPort:
         return None
 
     def on_trial_result(self, trial, result):
+        if self.ended is not None:
+            return "CONTINUE"
+        self._maybe_roundtrip()
         if self.ended is not None:
             return "CONTINUE"
         da, db = self._pair("on_trial_result", {"trial": trial, "result": dict(result)},
@@ -791,7 +1021,7 @@ def run_pair(spec, o):
     kind = p["kind"]
     seed = spec["seed"] % (2**31)
     shared = {}
-    if kind in HB_TYPES and HB_TYPES[kind].startswith("rush"):
+    if kind in HB_TYPES and HB_TYPES[kind].startswith("rush") and kind not in TRANSFER_KINDS:
         shared["rush_points"] = _rush_points(p, spec["seed"])
     mode_a, mode_b = "min", "max"
     if kind == "moasha":
@@ -823,6 +1053,8 @@ def run_pair(spec, o):
         raise
     o.count("pairs")
     o.count("pairs:" + kind)
+    if kind in TRANSFER_KINDS:
+        check_top_k(o, kind, p, shared["offline"][mode_a], shared["offline"][mode_b])
     referee = None
     rank_hook = None
     mra = "epochs" if p.get("use_mra") else None
@@ -837,6 +1069,15 @@ def run_pair(spec, o):
     negated = [m for j, m in enumerate(metrics) if j in p["flipped"]] if p.get("flipped") is not None else metrics
     port = TwinPort(a, b, kind, negated, o, spec["seed"], referee=referee, mra=mra)
     port.rank_hook = rank_hook
+    port.rt_prob, port.rt_left = p.get("rt_prob", 0.0), p.get("rt_max", 0)
+    if port.rt_prob > 0:
+        # short histories: still a few round trips
+        port.rt_prob = max(port.rt_prob, 2.5 / p["max_events"], 0.08 if kind in ("fifo_random", "fifo_grid", "bounding_box") else 0.0)
+    if kind in HB_TYPES:
+        def rt_nonempty(run_a):
+            nb_ = run_a.terminator.num_brackets if p["rung_system_per_bracket"] else 1
+            return any(len(es) >= 2 for br in range(nb_) for _, es in run_a.terminator.snapshot_rungs(br))
+        port.rt_nonempty = rt_nonempty
     max_t = p["max_t"]
     tables = [gen.Curves(p["curves"], spec["seed"] + 1 + 101 * j, max_t) for j in range(len(metrics))]
     if kind == "moasha":
@@ -899,7 +1140,7 @@ def run_pair(spec, o):
         class ReaMon:
             def pre_suggest(self, vt_, next_id):
                 try:
-                    if len(a.searcher.population) >= p["population_size"]:
+                    if len(port.a.searcher.population) >= p["population_size"]:
                         rea_full[0] += 1
                 except Exception:  # noqa: BLE001
                     pass
@@ -968,18 +1209,21 @@ def run_pair(spec, o):
         ok = ok and n_resumes > 0
     if kind == "rea":
         ok = ok and rea_full[0] > 0
-    if kind in ("fifo_random", "fifo_grid"):
+    if kind in ("fifo_random", "fifo_grid", "bounding_box"):
         ok = ok and n_sugg_after_complete > 0
+    if port.n_roundtrips:
+        o.count("pairs_with_roundtrip:" + kind)
     o.count("events", len(vt.events))
     o.count("resumes", n_resumes)
     o.count("warm_starts", n_warm)
     o.count("rule_decisions", n_rule_decisions)
     if ok:
         o.count("nontrivial:" + kind)
-    o.set_sig((kind, sig, ended), nontrivial=ok)
+    o.set_sig((kind, sig, ended, port.n_roundtrips), nontrivial=ok)
     show = {k: v for k, v in p.items() if k != "space"}
     o.sample = {"params": show, "events": len(vt.events), "suggestions": n_sugg, "resumes": n_resumes,
                 "warm_starts": n_warm, "rule_decisions": n_rule_decisions, "ended": ended,
+                "roundtrips": port.n_roundtrips,
                 "trace": [s if isinstance(s, str) else list(s) for s in sig[:24]]}
 
 
